@@ -527,6 +527,20 @@ def packageFiles (b : Backend) (qv : List String) (mds : List Inject) (hdrCalls 
   | .atlas => [⟨"query.cxx", ["query.h"] ++ qv ++ bodyIncsOf mds, true⟩, ⟨"query.h", headerIncsOf mds, hdrCalls⟩]
   | _ => [⟨"Analyzer.cc", qv ++ bodyIncsOf mds, true⟩]
 
+/-- The include list of the query (`generated_code.add_include`, one call per request: the first
+request of a path fixes its position, a path is dropped only if *that very path* is in the list) when
+the math expression is used together with other sources of includes — built-in injected functions
+(`DeltaR`: `TVector2.h`, `math.h`), user `add_cpp_function` blocks, collections: `pre` are the
+requests made before the expression's own (`qv`), `post` those made after. -/
+def withCompanions (pre qv post : List String) : List String :=
+  mergeIncs (mergeIncs (mergeIncs [] pre) qv) post
+
+/-- what a list of requests would give if a C header and the C++ header that wraps it counted as
+the same path (`alias`: pairs, both directions) — NOT what the code does; kept to show what the
+package clause rejects -/
+def mergeAliased (alias : List (String × String)) (a b : List String) : List String :=
+  b.foldl (fun acc i => if i ∈ acc || (alias.any fun p => p.1 == i && acc.contains p.2) then acc else acc ++ [i]) a
+
 /-- `name` includes `h`, directly or through rendered files it includes -/
 def sees (files : List FileObs) : Nat → String → String → Bool
   | 0, _, _ => false
